@@ -44,15 +44,10 @@ impl<'a> BlockFiltersProcess<'a> {
         }
         let peer_state = peer_state_opt.expect("checked Some");
 
-        let prove_state_block_hash = if let Some(header) = peer_state
-            .get_prove_state()
-            .map(|prove_state| prove_state.get_last_header().header())
-        {
-            header.hash()
-        } else {
+        if peer_state.get_prove_state().is_none() {
             warn!("ignoring, peer {} prove state is none", self.peer);
             return Status::ok();
-        };
+        }
 
         let mut matched_blocks = self
             .filter
@@ -241,9 +236,12 @@ impl<'a> BlockFiltersProcess<'a> {
         let filtered_block_number = start_number - 1 + actual_blocks_count as BlockNumber;
 
         if possible_match_blocks_len != 0 {
+            // Only the stored tip is proved without a blocks proof (there is no proof for the tip
+            // itself): the last header of the prove state of the peer could be of another branch.
+            let tip_hash = tip_header.calc_header_hash();
             let blocks = possible_match_blocks
                 .iter()
-                .map(|block_hash| (block_hash.clone(), block_hash == &prove_state_block_hash))
+                .map(|block_hash| (block_hash.clone(), block_hash == &tip_hash))
                 .collect::<Vec<_>>();
             self.filter.storage.add_matched_blocks(
                 start_number,
